@@ -17,6 +17,13 @@ def guarded_by_source(node, src, stop):
     truthiness of the input queue (so end of input is handled)?"""
     child = node
     for par in parent_chain(node):
+        if par is stop:
+            break  # the main `while source:` loop only guards the head pop
+        if isinstance(par, ast.BoolOp) and isinstance(par.op, ast.And):
+            first = par.values[0]
+            if isinstance(first, ast.Name) and first.id == src and not any(
+                    child is x for x in ast.walk(first)):
+                return True  # later conjunct of `source and ...`
         if isinstance(par, (ast.If, ast.While)):
             in_body = any(child is s or any(child is x for x in ast.walk(s))
                           for s in par.body)
@@ -62,7 +69,7 @@ def check(chk, repo, tier):
             for t in (par.targets if isinstance(par, ast.Assign)
                       else [par.target])) and getattr(
             par, "_parent", None) is lm.loop
-        ok = is_head_pop or guarded_by_source(acc, src, fn)
+        ok = is_head_pop or guarded_by_source(acc, src, lm.loop)
         chk.ob("C04.lexer-end-of-input-tolerant",
                f"lexer:{ast.unparse(acc)}@{_branch_label(lm, acc)}", ok,
                f"`{ast.unparse(acc)}` is not guarded by `{src}` being "
